@@ -349,7 +349,8 @@ def mats(vs):
     out = []
     for v in vs:
         if v and v[0] == "same" and out:
-            out.append(out[-1])
+            # ["same"]: the predecessor again; ["same", j]: the object at position j (modulo what is there) again
+            out.append(out[-1] if len(v) < 2 else out[v[1] % len(out)])
         elif v and v[0] == "same":
             continue
         else:
